@@ -363,8 +363,18 @@ func (fx *FuncVC) assumeWF(v Val) {
 		fx.assume(And(Le(z, v.Off, true), Le(z, v.Len, true), Le(v.Len, v.Cap, true), Le(IntC(0), v.Base, true), Lt(v.Base, fx.st.alloc, true)))
 		// nil slice: base 0 has cap 0
 		fx.assume(Implies(Eq(v.Base, IntC(0)), Eq(v.Cap, z)))
+		if fx.bv {
+			// machine arithmetic: offsets and capacities are far below 2^62, so off+cap does not wrap
+			lim := fx.idx(1 << 40)
+			fx.assume(And(Le(v.Off, lim, true), Le(v.Cap, lim, true)))
+			fx.note("mode bv: slice offsets and capacities are assumed to be at most 2^40 (index arithmetic on them does not wrap)")
+		}
 	case StrV:
 		fx.assume(And(Le(z, v.Off, true), Le(z, v.Len, true), Le(IntC(0), v.Base, true)))
+		if fx.bv {
+			lim := fx.idx(1 << 40)
+			fx.assume(And(Le(v.Off, lim, true), Le(v.Len, lim, true)))
+		}
 	case StructV:
 		for _, f := range v.F {
 			fx.assumeWF(f)
